@@ -173,9 +173,10 @@ Theorem C04_port_pointer : forall t m args o,
   (root_ok t m -> Forall ev_port_ok (log (dispatch t m args true o))).
 Proof. exact tree_port_pointer. Qed.
 
-(* names of the documented form (literal text, #N; sub-tree ports one
-   component + '/', leaves without trailing '/'): every callback's loc is a
-   prefix of the full address "/" ++ address, a leaf's loc IS the full address *)
+(* names of the documented form (literal text and #N, ANY number of address
+   components - "a#2/b#3/", "x/y/", "a#2/k#2:i"; sub-tree ports with a trailing
+   '/', leaves without): every callback's loc is a prefix of the full address
+   "/" ++ address, a leaf's loc IS the full address *)
 Theorem C04_loc_full_address : forall t m args o,
   root_ok t m -> names_ok t -> addr_ok (strip m) ->
   Forall (ev_loc_ok (47 :: strip m)) (log (dispatch t m args true o)).
@@ -217,6 +218,43 @@ Theorem C04_unhashed_same_calls : forall cb dh T m args st l,
   dispatch_table cb dh T m args false st' =
   fold_left (step_noloc cb (t_id T) m (obj st')) (scan_hits (t_ports T) 0 m args) st'.
 Proof. exact unhashed_same_calls. Qed.
+
+(* the recursion contract (SNIP of the rRecur*Cb callbacks after the commit
+   "fix: the recursion callbacks ... skipped one component") for a sub-tree
+   name of any number of components: the table below receives exactly what
+   follows the text the name matched; that text is what went into loc *)
+Theorem C04_snip_strips_matched_name : forall p m pe,
+  wf_pat p -> no_alt p -> subtree p = true -> path_spec p m pe ->
+  snipk (render p) m = pe /\ m = app_of (render p) m pe ++ pe.
+Proof. exact snip_strips_matched_name. Qed.
+
+(* the object handed down by an enumerated parent "k#N..." is chosen by the
+   number the address spells at the '#' (rBOILS_BEGIN after the commit "fix:
+   array ports took their index from the first digit of the address"): digits
+   in the literal text k do not count; a name without '#' hands down index 0 *)
+Theorem C04_index_at_hash : forall k rest x r,
+  ~ In 35 k -> x <> [] -> digits x -> starts_with_digit r = false ->
+  port_index (k ++ 35 :: rest) (k ++ x ++ r) = dec x.
+Proof. exact port_index_at_hash. Qed.
+
+(* names of several components: { a#2/b#3/ -> { x, u/v/ -> { w } }, a#2/k#2:i }
+   satisfies the hypotheses; /a1/b2/u/v/w runs the chain of three callbacks
+   with loc "/a1/b2/", "/a1/b2/u/v/", "/a1/b2/u/v/w"; /a1/k0 (types "i") runs
+   the enumerated two-component leaf with loc "/a1/k0" *)
+Theorem C04_multicomponent_names_nonvacuous :
+  (root_ok tree_mc msg_mc /\ root_ok tree_mc msg_mc2) /\
+  (names_ok tree_mc /\ addr_ok (strip msg_mc) /\ addr_ok (strip msg_mc2)) /\
+  (addressed [0%nat; 1%nat; 0%nat] tree_mc (strip msg_mc) [] /\
+   addressed [1%nat] tree_mc (strip msg_mc2) [105]) /\
+  dispatch tree_mc msg_mc [] true 1 =
+  {| loc := Some [47]; matches := 1; obj := 1; dport := Some (2, 0);
+     log := [Ev 2 0 [119] 17448 (Some [47; 97; 49; 47; 98; 50; 47; 117; 47; 118; 47; 119]) (Some (2, 0)) true;
+             Ev 1 1 [117; 47; 118; 47; 119] 133 (Some [47; 97; 49; 47; 98; 50; 47; 117; 47; 118; 47]) (Some (1, 1)) false;
+             Ev 0 0 [97; 49; 47; 98; 50; 47; 117; 47; 118; 47; 119] 1 (Some [47; 97; 49; 47; 98; 50; 47]) (Some (0, 0)) false] |} /\
+  dispatch tree_mc msg_mc2 [105] true 1 =
+  {| loc := Some [47]; matches := 1; obj := 1; dport := Some (0, 1);
+     log := [Ev 0 1 [97; 49; 47; 107; 48] 1 (Some [47; 97; 49; 47; 107; 48]) (Some (0, 1)) true] |}.
+Proof. exact (conj tree_mc_ok (conj tree_mc_names (conj tree_mc_addressed tree_mc_run))). Qed.
 
 (* the hypotheses hold for { a#2/ -> { b, c:i } (hashed), d } and /a1/c *)
 Theorem C04_tree_nonvacuous :
